@@ -21,18 +21,18 @@ import (
 // ---- worker side -----------------------------------------------------------------------------------------------
 
 type wmsg struct {
-	T        string           `json:"t"` // start | viol | known | sum
-	Idx      uint64           `json:"idx,omitempty"`
-	Replay   *ReplayFile      `json:"replay,omitempty"`
-	Known    string           `json:"known,omitempty"`
-	Evals    int64            `json:"evals,omitempty"`
-	Steps    int64            `json:"steps,omitempty"`
-	SimMs    int64            `json:"sim_ms,omitempty"`
-	OOS      int64            `json:"oos,omitempty"`
-	Sigs     []uint64         `json:"sigs,omitempty"`
-	AllSigs  int64            `json:"all_sigs,omitempty"`
-	Counters map[string]int64 `json:"counters,omitempty"`
-	Samples  []string         `json:"samples,omitempty"`
+	T        string            `json:"t"` // start | viol | known | sum
+	Idx      uint64            `json:"idx,omitempty"`
+	Replay   *ReplayFile       `json:"replay,omitempty"`
+	Known    string            `json:"known,omitempty"`
+	Evals    int64             `json:"evals,omitempty"`
+	Steps    int64             `json:"steps,omitempty"`
+	SimMs    int64             `json:"sim_ms,omitempty"`
+	OOS      int64             `json:"oos,omitempty"`
+	Sigs     []uint64          `json:"sigs,omitempty"`
+	AllSigs  int64             `json:"all_sigs,omitempty"`
+	Counters map[string]int64  `json:"counters,omitempty"`
+	Samples  []string          `json:"samples,omitempty"`
 	Digests  map[string]string `json:"digests,omitempty"`
 }
 
@@ -396,6 +396,11 @@ func RunMain(prop, tier string, seed uint64) int {
 	var viols []*ReplayFile
 	knownCount := map[string]int{}
 	infra := false
+	type fatalRun struct {
+		idx               uint64
+		kind, sig, stderr string
+	}
+	var fatals []fatalRun
 	for i, r := range results {
 		if r.err != nil {
 			fmt.Fprintf(os.Stderr, "worker %d: %v\n", i, r.err)
@@ -430,37 +435,44 @@ func RunMain(prop, tier string, seed uint64) int {
 				infra = true
 				continue
 			}
-			tape := NewLiveTape(seed, r.lastIdx)
-			// regenerate the recorded tape by running is impossible (it crashes); shrink from a long live prefix instead
-			w, s := liveDraws(tape, 4096)
-			sig := k + " " + raceSig(r.stderr)
-			rf := &ReplayFile{Property: prop, Engine: spec.EngineName, Tier: tier, Seed: seed, RunIndex: r.lastIdx,
-				W: w, S: s, OrigLen: [2]int{len(w), len(s)}, Fatal: Trunc(r.stderr, 12000),
-				Violation: &Violation{Rule: k, Msg: sig, Sig: sig}}
-			rule0, _, _, _, err := execTape(prop, tier, w, s)
-			if err != nil || rule0 != k {
-				fmt.Fprintf(os.Stderr, "worker %d died (%s) in run %d but the run does not reproduce in a fresh process (%v, got %q): infrastructure failure\n%s\n", i, k, r.lastIdx, err, rule0, Trunc(r.stderr, 6000))
-				infra = true
+			fatals = append(fatals, fatalRun{idx: r.lastIdx, kind: k, sig: k + " " + raceSig(r.stderr), stderr: r.stderr})
+		}
+	}
+	// Fatal runs: one representative per distinct diagnostic signature is reproduced in a fresh process and minimised
+	// (each re-execution is a process start, so the budget is small); the others are only counted.
+	sort.Slice(fatals, func(i, j int) bool { return fatals[i].idx < fatals[j].idx })
+	seenFatal := map[string]bool{}
+	for _, fr := range fatals {
+		if seenFatal[fr.sig] {
+			continue
+		}
+		seenFatal[fr.sig] = true
+		w, s := liveDraws(NewLiveTape(seed, fr.idx), 16384)
+		rf := &ReplayFile{Property: prop, Engine: spec.EngineName, Tier: tier, Seed: seed, RunIndex: fr.idx,
+			W: w, S: s, OrigLen: [2]int{len(w), len(s)}, Fatal: Trunc(fr.stderr, 12000),
+			Violation: &Violation{Rule: fr.kind, Msg: fr.sig, Sig: fr.sig}}
+		rule0, _, _, _, err := execTape(prop, tier, w, s)
+		if err != nil || rule0 != fr.kind {
+			fmt.Fprintf(os.Stderr, "a worker died (%s) in run %d but the run does not reproduce in a fresh process (%v, got %q): infrastructure failure\n%s\n", fr.kind, fr.idx, err, rule0, Trunc(fr.stderr, 6000))
+			infra = true
+			continue
+		}
+		bw, bs, n := Shrink(w, s, fr.kind, 45*time.Second, 120, func(cw, cs []uint32) string {
+			rl, _, _, _, _ := execTape(prop, tier, cw, cs)
+			return rl
+		})
+		rf.W, rf.S, rf.ShrinkRuns = bw, bs, n
+		if _, v, _, se2, _ := execTape(prop, tier, bw, bs); v != nil {
+			rf.Violation = v
+			rf.Fatal = Trunc(se2, 12000)
+		}
+		if kf, _ := LoadKnown(); kf != nil {
+			if ke := kf.Match(prop, rf.Violation); ke != nil {
+				knownCount[ke.What]++
 				continue
 			}
-			bw, bs, n := Shrink(w, s, k, 120*time.Second, 150, func(cw, cs []uint32) string {
-				rl, _, _, _, _ := execTape(prop, tier, cw, cs)
-				return rl
-			})
-			rf.W, rf.S, rf.ShrinkRuns = bw, bs, n
-			if _, v, _, se2, _ := execTape(prop, tier, bw, bs); v != nil {
-				rf.Violation = v
-				rf.Fatal = Trunc(se2, 12000)
-			}
-			kf, _ := LoadKnown()
-			if kf != nil {
-				if ke := kf.Match(prop, rf.Violation); ke != nil {
-					knownCount[ke.What]++
-					continue
-				}
-			}
-			viols = append(viols, rf)
 		}
+		viols = append(viols, rf)
 	}
 	wall := time.Since(start).Seconds()
 
@@ -514,7 +526,7 @@ func RunMain(prop, tier string, seed uint64) int {
 	ev := &Evidence{PropertyID: prop, Tier: tier, Seed: int64(seed), Level: "exploration", Coverage: cov,
 		Assumptions: spec.Assumptions, WallS: wall, Violations: len(viols)}
 	evb, _ := json.MarshalIndent(ev, "", " ")
-	evPath := filepath.Join(Home(), "evidence", prop+".json")
+	evPath := filepath.Join(OutDir(), "evidence", prop+".json")
 	os.MkdirAll(filepath.Dir(evPath), 0o755)
 	if err := os.WriteFile(evPath, evb, 0o644); err != nil {
 		fmt.Fprintln(os.Stderr, err)
